@@ -26,7 +26,8 @@ owning property counts as "proof obligation broken", see fcv/tables_extract.py):
     call has no meaning there and the theorem breaks.
 
 Parameters and local variables are alpha-normalised (v0, v1, … in order of first occurrence), so renaming them,
-reformatting, comments, docstrings and type annotations do not change the translation at all."""
+reformatting, comments, docstrings and type annotations do not change the translation at all (the rendering does
+not mention the source names either, so the module's status stays 'same').  `names_of(src, funcs)` prints the mapping."""
 from __future__ import annotations
 import ast
 
@@ -401,6 +402,11 @@ def extract_funcs(src, funcs) -> dict:
     return out
 
 
+def names_of(src, funcs) -> dict:
+    """debugging aid: {lean name: {source name: normalised name}}"""
+    return {k: v["names"] for k, v in extract_funcs(src, funcs).items()}
+
+
 # -------------------------------------------------------------------- rendering
 def _s(s: str) -> str:
     out = ['"']
@@ -498,7 +504,6 @@ def render_funcs(facts, funcs) -> str:
     for lean, _, _ in funcs:
         f = facts[lean]
         lines.append(f"/-- translated from the source text of `{f['path']}` -/")
-        lines.append("-- " + ", ".join(f"{v} = {k}" for k, v in f["names"].items()))
         lines.append(f"def {lean}Src : Fc.PyLite.Fn := {{")
         lines.append(f"  name := {_s(f['path'].split(': ')[1])}")
         lines.append("  params := [" + ", ".join(_s(p) for p in f["params"]) + "]")
